@@ -56,7 +56,16 @@ CONSTANTS Enders, Mutators, Children, Readers,
           PreCheck,     \* BOOLEAN: Register/UnregisterSpanProcessor test isShutdown before taking p.mu
           ReentReg,     \* BOOLEAN: the processors' Shutdown calls RegisterSpanProcessor (re-entrant use from a callback)
           WaitFor,      \* registrars started by a processor's Shutdown, which waits for them (reconfiguration worker)
-          UnregShape    \* "locked": Unregister runs the processor's Shutdown while holding p.mu | "unlocked": afterwards
+          UnregShape,   \* "locked": Unregister runs the processor's Shutdown while holding p.mu | "unlocked": afterwards
+          WithStart,    \* BOOLEAN: tracer.Start is a process of its own ("st"): OnStart fan-out, then runtimeTrace
+          StartEnder,   \* "none" | the ender whose End is called by a processor INSIDE OnStart (the span is ended before
+                        \* Start returns; executionTracerTaskEnd is still nil for that End)
+          RTShape,      \* "plain": runtimeTrace = lock, store task end, unlock | "leak" (named deviation D6): returns
+                        \* early when the span is already ended WITHOUT unlocking
+          ZeroMut,      \* subset of Mutators: SetAttributes with AttributeCountLimit = 0, observable only through the
+                        \* dropped-attributes counter (evs.datt), 2 attributes per call
+          ZShape        \* "locked": counted under the lock after the recording check | "hoisted" (named deviation D7):
+                        \* counted before the lock and the check
 
 VARIABLES mu,        \* span lock holder: "none" | process
           endTime,   \* "none" (zero) | the ender whose end time is stored
@@ -75,19 +84,22 @@ VARIABLES mu,        \* span lock holder: "none" | process
 vars == <<mu, endTime, parts, childCount, pc, esnap, eprocs, rval, plist, evs, prov, win, winOverlap, mon>>
 
 RegSet == {Registrars[i] : i \in 1..Len(Registrars)}
-Procs == Enders \cup Mutators \cup Children \cup Readers \cup RegSet \cup Stoppers \cup Unregs
+Procs == Enders \cup Mutators \cup Children \cup Readers \cup RegSet \cup Stoppers \cup Unregs \cup (IF WithStart THEN {"st"} ELSE {})
+(* users get the span when Start returns; a processor may end it inside OnStart *)
+CanCall(x) == IF ~WithStart THEN TRUE ELSE IF x = StartEnder THEN pc["st"] = "onstart" ELSE pc["st"] = "done"
+ET(e) == ExecTracer /\ e # StartEnder
 ProcSet == {Processors[i] : i \in 1..Len(Processors)}
 (* the processor registered by the i-th registrar is named after its position in the final list *)
 Late(g) == LET i == CHOOSE j \in 1..Len(Registrars) : Registrars[j] = g IN "p" \o ToString(Len(Processors) + i)
 LateSet == {Late(g) : g \in RegSet}
 PartsOf(m) == {<<m, 1>>, <<m, 2>>}
-NoSnap == [et |-> "none", copied |-> {}, child |-> 0, evq |-> <<>>, evdrop |-> 0]
+NoSnap == [et |-> "none", copied |-> {}, child |-> 0, evq |-> <<>>, evdrop |-> 0, datt |-> 0]
 (* what a processor reads from a snapshot now: copied parts + the aliased storage *)
 View(s) == s.copied \cup {x \in parts : x[1] \in Shared}
 (* events: a copy, or -- aliased and full, so that a later add shifts the array in place -- the live queue *)
 VEv(s) == IF SnapShares /\ EvLimit > 0 /\ Len(s.evq) = EvLimit THEN evs.q ELSE s.evq
-Push(ev, x) == IF EvLimit > 0 /\ Len(ev.q) >= EvLimit THEN [q |-> Append(Tail(ev.q), x), drop |-> ev.drop + 1]
-                                                      ELSE [q |-> Append(ev.q, x), drop |-> ev.drop]
+Push(ev, x) == IF EvLimit > 0 /\ Len(ev.q) >= EvLimit THEN [ev EXCEPT !.q = Append(Tail(@), x), !.drop = @ + 1]
+                                                      ELSE [ev EXCEPT !.q = Append(@, x)]
 SeqSet(q) == {q[i] : i \in 1..Len(q)}
 
 Init ==
@@ -95,7 +107,7 @@ Init ==
   /\ pc = [x \in Procs |-> "idle"]
   /\ esnap = [e \in Enders |-> NoSnap] /\ eprocs = [e \in Enders |-> <<>>]
   /\ rval = [r \in Readers |-> FALSE] /\ plist = Processors /\ win = {} /\ winOverlap = FALSE
-  /\ evs = [q |-> EvInit, drop |-> 0] /\ prov = [mu |-> "none", down |-> FALSE]
+  /\ evs = [q |-> EvInit, drop |-> 0, datt |-> 0] /\ prov = [mu |-> "none", down |-> FALSE]
   /\ mon = [endCalled |-> FALSE, endOpen |-> 0, endRet |-> FALSE,
             called |-> {}, mustIn |-> {}, mustOut |-> {},
             childMustIn |-> 0, childEligible |-> 0, rAfter |-> {},
@@ -108,8 +120,8 @@ Lock(x) == mu = "none" /\ mu' = x
 Unlock(x) == mu = x /\ mu' = "none"
 
 (* ------------------------------------------------------------------ enders *)
-AfterCheck == IF ExecTracer /\ Shape \in {"window", "recheck"} THEN "unlockT" ELSE "mark"
-ECall(e) == /\ pc[e] = "idle" /\ Go(e, "lock")
+AfterCheck(e) == IF ET(e) /\ Shape \in {"window", "recheck"} THEN "unlockT" ELSE "mark"
+ECall(e) == /\ pc[e] = "idle" /\ CanCall(e) /\ Go(e, "lock")
             /\ mon' = [mon EXCEPT !.endCalled = TRUE, !.endOpen = @ + 1]
             /\ UNCHANGED <<prov, evs, plist, mu, endTime, parts, childCount, esnap, eprocs, rval, win, winOverlap>>
 ELock(e) == /\ pc[e] = "lock" /\ Lock(e) /\ Go(e, "check")
@@ -117,7 +129,7 @@ ELock(e) == /\ pc[e] = "lock" /\ Lock(e) /\ Go(e, "check")
 ECheck(e) == /\ pc[e] = "check"
              /\ IF endTime # "none"
                   THEN Go(e, "unlockign") /\ UNCHANGED <<prov, evs, plist, win, winOverlap>>
-                  ELSE /\ Go(e, IF e \in Panickers THEN (IF PShape = "locked" THEN "pfmt" ELSE "punlock") ELSE AfterCheck)
+                  ELSE /\ Go(e, IF e \in Panickers THEN (IF PShape = "locked" THEN "pfmt" ELSE "punlock") ELSE AfterCheck(e))
                        /\ win' = win \cup {e} /\ winOverlap' = (winOverlap \/ win # {})
              /\ UNCHANGED <<prov, evs, plist, mu, endTime, parts, childCount, esnap, eprocs, rval, mon>>
 (* End deferred during a panic: recover(), describe the recovered value (user code: Error()/String(), stack
@@ -132,7 +144,7 @@ EPanicRecheck(e) == /\ pc[e] = "precheck2"
                     /\ IF endTime # "none" THEN (Go(e, "unlockign2") /\ win' = win \ {e})
                                            ELSE (Go(e, "paddev") /\ UNCHANGED win)
                     /\ UNCHANGED <<prov, evs, plist, mu, endTime, parts, childCount, esnap, eprocs, rval, winOverlap, mon>>
-EPanicAddEvent(e) == /\ pc[e] = "paddev" /\ evs' = Push(evs, e) /\ Go(e, AfterCheck)
+EPanicAddEvent(e) == /\ pc[e] = "paddev" /\ evs' = Push(evs, e) /\ Go(e, AfterCheck(e))
                      /\ UNCHANGED <<prov, plist, mu, endTime, parts, childCount, esnap, eprocs, rval, win, winOverlap, mon>>
 EUnlockIgnored(e) == /\ pc[e] \in {"unlockign", "unlockign2"} /\ Unlock(e) /\ Go(e, "ret")
                      /\ UNCHANGED <<prov, evs, plist, endTime, parts, childCount, esnap, eprocs, rval, win, winOverlap, mon>>
@@ -152,7 +164,7 @@ ERecheck(e) == /\ pc[e] = "recheck"
 EMark(e) == /\ pc[e] = "mark" /\ endTime' = e /\ Go(e, "unlock") /\ win' = win \ {e}
             /\ UNCHANGED <<prov, evs, plist, mu, parts, childCount, esnap, eprocs, rval, winOverlap, mon>>
 EUnlock(e) == /\ pc[e] = "unlock" /\ Unlock(e)
-              /\ Go(e, IF ExecTracer /\ Shape = "markfirst" THEN "task2" ELSE "procs")
+              /\ Go(e, IF ET(e) /\ Shape = "markfirst" THEN "task2" ELSE "procs")
               /\ UNCHANGED <<prov, evs, plist, endTime, parts, childCount, esnap, eprocs, rval, win, winOverlap, mon>>
 EGetProcs(e) == /\ pc[e] = "procs" /\ eprocs' = [eprocs EXCEPT ![e] = plist]
                 /\ Go(e, IF plist = <<>> THEN "ret" ELSE "snaplock")
@@ -161,7 +173,8 @@ ESnapLock(e) == /\ pc[e] = "snaplock" /\ Lock(e) /\ Go(e, "snapcopy")
                 /\ UNCHANGED <<prov, evs, plist, endTime, parts, childCount, esnap, eprocs, rval, win, winOverlap, mon>>
 ESnapCopy(e) == /\ pc[e] = "snapcopy" /\ Go(e, "snapunlock")
                 /\ esnap' = [esnap EXCEPT ![e] = [et |-> endTime, copied |-> {x \in parts : x[1] \notin Shared},
-                                                   child |-> childCount, evq |-> evs.q, evdrop |-> evs.drop]]
+                                                   child |-> childCount, evq |-> evs.q, evdrop |-> evs.drop,
+                                                   datt |-> evs.datt]]
                 /\ UNCHANGED <<prov, evs, plist, mu, endTime, parts, childCount, eprocs, rval, win, winOverlap, mon>>
 ESnapUnlock(e) == /\ pc[e] = "snapunlock" /\ Unlock(e) /\ Go(e, "onend")
                   /\ UNCHANGED <<prov, evs, plist, endTime, parts, childCount, esnap, eprocs, rval, win, winOverlap, mon>>
@@ -173,7 +186,10 @@ Judge(m, p, s) ==
      \cup (IF m.ets \cup {s.et} # {s.et} THEN {"end-time-differs"} ELSE {})
      \cup (IF Torn(v) THEN {"torn-mutation"} ELSE {})
      \cup (IF VEv(s) # s.evq THEN {"torn-mutation"} ELSE {})     \* events no longer match the counters copied with them
-     \cup (IF \E x \in m.mustIn \ EvMut : ~(PartsOf(x) \subseteq v) THEN {"mutation-lost"} ELSE {})    \* (events may be evicted)
+     \cup (IF \E x \in (m.mustIn \ EvMut) \ ZeroMut : ~(PartsOf(x) \subseteq v) THEN {"mutation-lost"} ELSE {})   \* (events may be evicted)
+     \* limit 0: a mutation is observable only through the dropped counter: it counts exactly the mutations that are "in"
+     \cup (IF s.datt % 2 # 0 \/ s.datt < 2 * Cardinality(m.mustIn \cap ZeroMut)
+              \/ s.datt > 2 * Cardinality((m.called \ m.mustOut) \cap ZeroMut) THEN {"dropped-count"} ELSE {})
      \cup (IF \E x \in m.mustOut : PartsOf(x) \cap v # {} \/ x \in SeqSet(VEv(s)) THEN {"mutation-after-end"} ELSE {})
      \cup (IF s.child < m.childMustIn \/ s.child > m.childEligible THEN {"child-count"} ELSE {})
 EOnEnd(e) == /\ pc[e] = "onend"
@@ -191,10 +207,13 @@ ERet(e) == /\ pc[e] = "ret" /\ Go(e, "done")
            /\ UNCHANGED <<prov, evs, plist, mu, endTime, parts, childCount, esnap, eprocs, rval, win, winOverlap>>
 
 (* ---------------------------------------------------------------- mutators *)
-ApplyPc(m) == IF m \in EvMut THEN "applyev" ELSE "apply1"
-MCall(m) == /\ pc[m] = "idle" /\ Go(m, IF m \in UserMut /\ MShape # "locked" THEN "precheck" ELSE "lock")
+ApplyPc(m) == IF m \in ZeroMut THEN "applyz" ELSE IF m \in EvMut THEN "applyev" ELSE "apply1"
+Hoisted(m) == m \in ZeroMut /\ ZShape = "hoisted"      \* D7: limit-0 branch before the lock and the recording check
+MCall(m) == /\ pc[m] = "idle" /\ CanCall(m)
+            /\ Go(m, IF Hoisted(m) THEN "ret" ELSE IF m \in UserMut /\ MShape # "locked" THEN "precheck" ELSE "lock")
+            /\ evs' = IF Hoisted(m) THEN [evs EXCEPT !.datt = @ + 2] ELSE evs
             /\ mon' = [mon EXCEPT !.called = @ \cup {m}, !.mustOut = IF mon.endRet THEN @ \cup {m} ELSE @]
-            /\ UNCHANGED <<prov, evs, plist, mu, endTime, parts, childCount, esnap, eprocs, rval, win, winOverlap>>
+            /\ UNCHANGED <<prov, plist, mu, endTime, parts, childCount, esnap, eprocs, rval, win, winOverlap>>
 MLock(m) == /\ pc[m] = "lock" /\ Lock(m) /\ Go(m, "check")
             /\ UNCHANGED <<prov, evs, plist, endTime, parts, childCount, esnap, eprocs, rval, win, winOverlap, mon>>
 (* unlocked shapes: `if !s.IsRecording() { return }` (takes and releases the lock), then the user code, then the lock *)
@@ -211,7 +230,8 @@ MApply(m) == /\ pc[m] \in {"apply1", "apply2"}
              /\ parts' = parts \cup {<<m, IF pc[m] = "apply1" THEN 1 ELSE 2>>}
              /\ Go(m, IF pc[m] = "apply1" THEN "apply2" ELSE "unlock")
              /\ UNCHANGED <<prov, evs, plist, mu, endTime, childCount, esnap, eprocs, rval, win, winOverlap, mon>>
-MApplyEv(m) == /\ pc[m] = "applyev" /\ evs' = Push(evs, m) /\ Go(m, "unlock")
+MApplyEv(m) == /\ pc[m] \in {"applyev", "applyz"} /\ Go(m, "unlock")
+               /\ evs' = IF pc[m] = "applyz" THEN [evs EXCEPT !.datt = @ + 2] ELSE Push(evs, m)
                /\ UNCHANGED <<prov, plist, mu, endTime, parts, childCount, esnap, eprocs, rval, win, winOverlap, mon>>
 MUnlock(m) == /\ pc[m] = "unlock" /\ Unlock(m) /\ Go(m, "ret")
               /\ UNCHANGED <<prov, evs, plist, endTime, parts, childCount, esnap, eprocs, rval, win, winOverlap, mon>>
@@ -220,7 +240,7 @@ MRet(m) == /\ pc[m] = "ret" /\ Go(m, "done")
            /\ UNCHANGED <<prov, evs, plist, mu, endTime, parts, childCount, esnap, eprocs, rval, win, winOverlap>>
 
 (* ---------------------------------------------------------- child starters *)
-CCall(c) == /\ pc[c] = "idle" /\ Go(c, IF ChildGuard = "sampled" /\ ~Sampled THEN "ret" ELSE "lock")    \* D5
+CCall(c) == /\ pc[c] = "idle" /\ CanCall(c) /\ Go(c, IF ChildGuard = "sampled" /\ ~Sampled THEN "ret" ELSE "lock")    \* D5
             /\ mon' = [mon EXCEPT !.childEligible = IF mon.endRet THEN @ ELSE @ + 1]
             /\ UNCHANGED <<prov, evs, plist, mu, endTime, parts, childCount, esnap, eprocs, rval, win, winOverlap>>
 CLock(c) == /\ pc[c] = "lock" /\ Lock(c) /\ Go(c, "incr")
@@ -235,7 +255,7 @@ CRet(c) == /\ pc[c] = "ret" /\ Go(c, "done")
            /\ UNCHANGED <<prov, evs, plist, mu, endTime, parts, childCount, esnap, eprocs, rval, win, winOverlap>>
 
 (* ----------------------------------------------------------------- readers *)
-RCall(r) == /\ pc[r] = "idle" /\ Go(r, "lock")
+RCall(r) == /\ pc[r] = "idle" /\ CanCall(r) /\ Go(r, "lock")
             /\ mon' = [mon EXCEPT !.rAfter = IF mon.endRet THEN @ \cup {r} ELSE @]
             /\ UNCHANGED <<prov, evs, plist, mu, endTime, parts, childCount, esnap, eprocs, rval, win, winOverlap>>
 RLock(r) == /\ pc[r] = "lock" /\ Lock(r) /\ Go(r, "read")
@@ -255,7 +275,7 @@ RRet(r) == /\ pc[r] = "ret" /\ Go(r, "done")
 (* started by a processor's Shutdown (WaitFor) exists only while that Shutdown runs.                               *)
 PLock(x) == prov.mu = "none" /\ prov' = [prov EXCEPT !.mu = x]
 PUnlock(x) == prov.mu = x /\ prov' = [prov EXCEPT !.mu = "none"]
-GCall(g) == /\ pc[g] = "idle" /\ (g \in WaitFor => \E t \in Stoppers : pc[t] = "swait")
+GCall(g) == /\ pc[g] = "idle" /\ CanCall(g) /\ (g \in WaitFor => \E t \in Stoppers : pc[t] = "swait")
             /\ Go(g, IF PreCheck /\ prov.down THEN "ret" ELSE "glock")
             /\ UNCHANGED <<prov, evs, mu, endTime, parts, childCount, esnap, eprocs, rval, plist, win, winOverlap, mon>>
 GLock(g) == /\ pc[g] = "glock" /\ PLock(g) /\ Go(g, "gcheck")
@@ -275,7 +295,7 @@ GRet(g) == /\ pc[g] = "ret" /\ Go(g, "done")
 (* may call back into the provider, ReentReg, or wait for a worker that does, WaitFor) WHILE HOLDING p.mu, clear   *)
 (* the list, unlock.  From the first Shutdown / Unregister call on, delivery is C15's subject (mon.must).          *)
 Rest == <<evs, mu, endTime, parts, childCount, esnap, eprocs, rval, win, winOverlap>>
-SCall(t) == /\ pc[t] = "idle" /\ Go(t, IF prov.down THEN "ret" ELSE "slock")
+SCall(t) == /\ pc[t] = "idle" /\ CanCall(t) /\ Go(t, IF prov.down THEN "ret" ELSE "slock")
             /\ mon' = [mon EXCEPT !.must = {}, !.sd = TRUE] /\ UNCHANGED <<prov, plist, Rest>>
 SLock(t) == /\ pc[t] = "slock" /\ PLock(t) /\ Go(t, "sset") /\ UNCHANGED <<plist, mon, Rest>>
 SSet(t) == /\ pc[t] = "sset"
@@ -301,7 +321,7 @@ StopNext(t) == SCall(t) \/ SLock(t) \/ SSet(t) \/ SProc(t) \/ Reent(t) \/ SWait(
 (* "locked" (the pinned code) runs that Shutdown under p.mu: a processor whose Shutdown calls Tracer() / Register  *)
 (* (not shut down: no early return) blocks on the lock its own caller holds = deviation D4.                        *)
 Without(q, x) == SelectSeq(q, LAMBDA y : y # x)
-UCall(u) == /\ pc[u] = "idle" /\ Go(u, IF PreCheck /\ prov.down THEN "ret" ELSE "ulock")
+UCall(u) == /\ pc[u] = "idle" /\ CanCall(u) /\ Go(u, IF PreCheck /\ prov.down THEN "ret" ELSE "ulock")
             /\ mon' = [mon EXCEPT !.must = @ \ {Processors[1]}] /\ UNCHANGED <<prov, plist, Rest>>
 ULock(u) == /\ pc[u] = "ulock" /\ PLock(u) /\ Go(u, "ucheck") /\ UNCHANGED <<plist, mon, Rest>>
 UCheck(u) == /\ pc[u] = "ucheck"
@@ -317,6 +337,23 @@ UUnlock(u) == /\ pc[u] = "uunlock" /\ PUnlock(u)
 URet(u) == /\ pc[u] = "ret" /\ Go(u, "done") /\ UNCHANGED <<prov, plist, mon, Rest>>
 UnregNext(u) == UCall(u) \/ ULock(u) \/ UCheck(u) \/ UShut(u) \/ Reent(u) \/ URemove(u) \/ UUnlock(u) \/ URet(u)
 
+(* ------------------------------------------------------------------- start *)
+(* tracer.Start: the processors' OnStart (user code: may end the span, StartEnder), then runtimeTrace: with the    *)
+(* execution tracer on, create the task, lock, store its End, unlock.                                             *)
+TCall == /\ pc["st"] = "idle" /\ Go("st", "onstart")
+         /\ UNCHANGED <<prov, evs, plist, mu, endTime, parts, childCount, esnap, eprocs, rval, win, winOverlap, mon>>
+TOnStartDone == /\ pc["st"] = "onstart" /\ (IF StartEnder = "none" THEN TRUE ELSE pc[StartEnder] = "done")
+                /\ Go("st", IF ExecTracer THEN "rtlock" ELSE "done")
+                /\ UNCHANGED <<prov, evs, plist, mu, endTime, parts, childCount, esnap, eprocs, rval, win, winOverlap, mon>>
+TRTLock == /\ pc["st"] = "rtlock" /\ Lock("st") /\ Go("st", "rtcheck")
+           /\ UNCHANGED <<prov, evs, plist, endTime, parts, childCount, esnap, eprocs, rval, win, winOverlap, mon>>
+TRTCheck == /\ pc["st"] = "rtcheck"
+            /\ Go("st", IF RTShape = "leak" /\ endTime # "none" THEN "done" ELSE "rtunlock")   \* D6: returns holding span.mu
+            /\ UNCHANGED <<prov, evs, plist, mu, endTime, parts, childCount, esnap, eprocs, rval, win, winOverlap, mon>>
+TRTUnlock == /\ pc["st"] = "rtunlock" /\ Unlock("st") /\ Go("st", "done")
+             /\ UNCHANGED <<prov, evs, plist, endTime, parts, childCount, esnap, eprocs, rval, win, winOverlap, mon>>
+StartNext == WithStart /\ (TCall \/ TOnStartDone \/ TRTLock \/ TRTCheck \/ TRTUnlock)
+
 EnderNext(e) == \/ ECall(e) \/ ELock(e) \/ ECheck(e) \/ EUnlockIgnored(e) \/ EUnlockForTask(e) \/ ETaskEnd(e)
                 \/ EPanicUnlock(e) \/ EPanicFormat(e) \/ EPanicRelock(e) \/ EPanicRecheck(e) \/ EPanicAddEvent(e)
                 \/ ERelock(e) \/ ERecheck(e) \/ EMark(e) \/ EUnlock(e) \/ EGetProcs(e) \/ ESnapLock(e) \/ ESnapCopy(e)
@@ -328,6 +365,7 @@ RegNext(g) == GCall(g) \/ GLock(g) \/ GCheck(g) \/ GStore(g) \/ GUnlock(g) \/ GR
 AllDone == \A x \in Procs : pc[x] = "done"
 Terminated == AllDone /\ UNCHANGED vars      \* so that TLC's deadlock check means: somebody is stuck
 Next == \/ Terminated
+        \/ StartNext
         \/ \E e \in Enders : EnderNext(e)
         \/ \E m \in Mutators : MutNext(m)
         \/ \E c \in Children : ChildNext(c)
@@ -338,7 +376,8 @@ Next == \/ Terminated
 
 (* a call, once made, keeps running (the calls themselves are the environment's choice) *)
 Running(x) == pc[x] \notin {"idle", "done"}
-Fairness == /\ \A e \in Enders : WF_vars(Running(e) /\ EnderNext(e))
+Fairness == /\ WF_vars(StartNext)
+            /\ \A e \in Enders : WF_vars(Running(e) /\ EnderNext(e))
             /\ \A m \in Mutators : WF_vars(Running(m) /\ MutNext(m))
             /\ \A c \in Children : WF_vars(Running(c) /\ ChildNext(c))
             /\ \A r \in Readers : WF_vars(Running(r) /\ ReadNext(r))
@@ -362,7 +401,7 @@ SnapshotStable == \A d \in mon.views : View(esnap[d.e]) = d.view /\ VEv(esnap[d.
 MutexOK == /\ mu \in Procs \cup {"none"}
            /\ \A x \in Procs : (mu = x) <=> (pc[x] \in (IF PShape = "locked" /\ x \in Enders THEN {"pfmt"} ELSE {})
                                                         \cup (IF MShape = "locked" /\ x \in Mutators THEN {"user"} ELSE {})
-                                                        \cup {"punlock", "paddev", "precheck2", "applyev"}
+                                                        \cup {"punlock", "paddev", "precheck2", "applyev", "applyz", "rtcheck", "rtunlock"}
                                                         \cup {"check", "unlockign", "unlockign2", "recheck", "unlockT", "mark", "unlock", "snapcopy",
                                                          "snapunlock", "apply1", "apply2", "incr", "read"})
 (* once some End has returned the span is ended for good *)
